@@ -406,3 +406,69 @@ func modeName(m string) string {
 	}
 	return m
 }
+
+// RefAnswers is the small API basket used where the reference is not regexp itself
+// (C12: plain NFA simulation; C13/C06: a fresh value).
+type RefAnswers struct {
+	Match  bool
+	Find   []int
+	Sub    []int
+	All    [][]int
+	AllSub [][]int
+	Count  int
+}
+
+// Cmp is one comparison of a basket.
+type Cmp struct {
+	API, Group, Kind, Exp, Got string
+}
+
+// PikeRef computes the basket with the plain NFA simulation under the stdlib iteration rules.
+func (c *Compiled) PikeRef(h []byte, n int) *RefAnswers {
+	sub := c.pikeSubmatchAt(h, 0)
+	r := &RefAnswers{Match: sub != nil, Sub: sub}
+	if sub != nil {
+		r.Find = []int{sub[0], sub[1]}
+	}
+	if n != 0 {
+		r.AllSub = c.pikeAll(h, n)
+	}
+	for _, m := range r.AllSub {
+		r.All = append(r.All, []int{m[0], m[1]})
+	}
+	r.Count = len(r.All)
+	return r
+}
+
+// CoAnswers computes the basket with a coregex value.
+func CoAnswers(re *coregex.Regex, h []byte, n int) *RefAnswers {
+	return &RefAnswers{Match: re.Match(h), Find: re.FindIndex(h), Sub: re.FindSubmatchIndex(h), All: re.FindAllIndex(h, n),
+		AllSub: re.FindAllSubmatchIndex(h, n), Count: re.Count(h, n)}
+}
+
+// StdAnswers computes the basket with regexp.
+func StdAnswers(re *regexp.Regexp, h []byte, n int) *RefAnswers {
+	all := re.FindAllIndex(h, n)
+	return &RefAnswers{Match: re.Match(h), Find: re.FindIndex(h), Sub: re.FindSubmatchIndex(h), All: all,
+		AllSub: re.FindAllSubmatchIndex(h, n), Count: len(all)}
+}
+
+// Compare lists the comparisons (expected = receiver).
+func (r *RefAnswers) Compare(g *RefAnswers) []Cmp {
+	mk := func(api, group string, e, o any) Cmp {
+		es, gs := Canon(e), Canon(o)
+		c := Cmp{API: api, Group: group, Exp: es, Got: gs}
+		if es != gs {
+			c.Kind = KindOf(group, e, o)
+		}
+		return c
+	}
+	return []Cmp{
+		mk("Match", "match", r.Match, g.Match),
+		mk("FindIndex", "find", r.Find, g.Find),
+		mk("FindSubmatchIndex", "submatch", r.Sub, g.Sub),
+		mk("FindAllIndex", "findall", r.All, g.All),
+		mk("FindAllSubmatchIndex", "findallsub", r.AllSub, g.AllSub),
+		mk("Count", "count", r.Count, g.Count),
+	}
+}
